@@ -110,7 +110,7 @@ def workflow(draw):
             # spelled relatively: the text of one reference is then contained in the text of the other
             twins = [(a, b) for a in range(i) for b in range(i) if W["comps"][a]["name"] == W["comps"][b]["name"]
                      and W["comps"][a]["stage"] < W["comps"][b]["stage"] == stage]
-            if twins and draw(st.booleans()):
+            if twins:
                 a, b = draw(st.sampled_from(twins))
                 fl = draw(st.sampled_from([None, None] + PFILES))
                 mm = draw(st.sampled_from(DIR_METHODS if fl is None else FILE_METHODS_ARGS))
@@ -529,11 +529,23 @@ def mutation(draw, W):
         options += ["extpath"] * 3
     if W["gvars"] or any(x["vars"] for x in comps):
         options += ["var", "var"]
+    # references whose text contains the text of another reference: make changes to the producers involved likely
+    for ci, cc in enumerate(comps):
+        texts = arg_ref_texts(W, cc)
+        if any(a != b and a in b for a in texts for b in texts):
+            for r in cc["refs"]:
+                if r["t"] == "comp":
+                    options += ["exe@%d" % r["j"]] * 2
+            options += ["restage", "restage"]
     # Hypothesis prefers the first element of a sampled_from; rotate by a function of W so that the preferred
     # mutation kind differs from workflow to workflow (deterministic in W, no randomness of our own)
     rot = _stable_hash(W) % len(options)
     options = options[rot:] + options[:rot]
     k = draw(st.sampled_from(options))
+    if k.startswith("exe@"):
+        i = int(k[4:])
+        c = comps[i]
+        k = "exe"
     m = {"k": k}
     if k == "exe":
         m.update(i=i, to=draw(st.sampled_from([e for e in EXES if e != c["exe"]])))
